@@ -50,8 +50,10 @@ def gen_response(rng):
         coding = rng.choice(B.STACKS)
     spec = {"payload": {"size": size, "kind": rng.choice(["compressible", "compressible", "random", "lines"]), "seed": rng.randrange(1000)}, "coding": coding, "framing": rng.choice(["cl", "cl", "chunked", "chunked", "close"])}
     if spec["framing"] == "chunked":
-        spec["chunks"] = [rng.choice([1, 2, 3, 7, 16, 100, 1000, 5000, 100000]) for _ in range(rng.choice([1, 1, 2, 3]))]
+        spec["chunks"] = [rng.choice([1, 2, 3, 7, 10, 16, 100, 255, 1000, 5000, 100000]) for _ in range(rng.choice([1, 1, 2, 3]))]
         spec["chunk_ext"] = rng.random() < 0.3
+        if rng.random() < 0.3:
+            spec["chunk_hex_upper"] = True  # chunk sizes written in upper-case hex
         avg = sum(spec["chunks"]) / len(spec["chunks"])
         if size / avg > 3000:  # keep the number of chunks (and socket reads) bounded
             k = int(size / avg / 3000) + 1
@@ -121,6 +123,8 @@ def gen(rng):
     if resp["payload"]["size"] > 20000:
         amt = max(amt, 1000)  # a read1(1) loop costs one socket read per byte: keep below the harness step cap
     sc = {"property": ID, "response": resp, "seg": seg, "decode": decode, "program": prog, "finisher": fin, "amt": amt}
+    if decode and fin not in ("iter", "data", "readinto_loop") and not any(o[0] == "readinto" for o in prog) and rng.random() < 0.2:
+        sc["decode_request"] = False  # (iteration, .data and readinto() take no per-call flag: they follow the response's own setting)
     if prog and fin != "data" and decode and rng.random() < 0.2:
         # a second response, on its own connection of the same pool, is read a piece at a time *between* the reads of the first:
         # nothing the two have in common (decoder classes, module state) may carry bytes or state from one to the other
@@ -197,7 +201,8 @@ def execute(sc, res: Result, w, built, second_request=False):
             res.probes["preload"] += 1
             emit(r.data, "data")
             return pieces, None, r, pool
-        r = pool.urlopen("GET", "/x", preload_content=False, decode_content=d)
+        # ("decode_request": the response is created with decode_content=False and every call asks for decoding itself)
+        r = pool.urlopen("GET", "/x", preload_content=False, decode_content=sc.get("decode_request", d))
         comp = sc.get("companion")
         r2 = None
         cbuf = bytearray()
@@ -431,7 +436,11 @@ def shrinks(sc):
                 c = copy.deepcopy(sc)
                 c["program"][i][1] = a
                 yield c
-    for fld in ("chunk_ext", "ce_upper", "split_at", "members"):
+    if "decode_request" in sc:
+        c = copy.deepcopy(sc)
+        del c["decode_request"]
+        yield c
+    for fld in ("chunk_ext", "ce_upper", "split_at", "members", "chunk_hex_upper"):
         if fld in r:
             c = copy.deepcopy(sc)
             del c["response"][fld]
